@@ -23,7 +23,8 @@ TECHNIQUE = ("runtime monitor: content oracle from an independent keyring writer
 LEVEL_TEXT = (
     "A fixed, seed-independent set of structural corner keyrings (every subset of {backbone, interfaces, groups, devices} with 0/1/2 "
     "entries and empty containers, every order of the top-level sections, every subset of the optional attributes of backbone, "
-    "interface and device alone / before / after a complete sibling, groups without senders or keys), then random ETS-like projects (0..N interfaces/devices/groups, non-ASCII passwords, ETS-5 and PKCS#7 padding, random "
+    "interface and device alone / before / after a complete sibling, groups without senders or keys, sender lists separated / surrounded by spaces, TAB, LF, CR written raw and as character references, "
+    "secrets ending in their own pad octet for every length 0..40 in both padding layouts), then random ETS-like projects (0..N interfaces/devices/groups, non-ASCII passwords, ETS-5 and PKCS#7 padding, random "
     "serialisation: BOM, line ends, indentation, quotes, attribute order, character references) are written by an independent "
     "writer and loaded by the real sync_load_keyring; the six real ETS exports shipped with the tests are decrypted by the "
     "independent reader. For every file, every element name, attribute name, attribute value, sibling order, nesting, "
@@ -711,7 +712,9 @@ def corner_case(ctx, env, number: int, label: str, project: W.Project, order: st
         ctx.count("corner_backbone_key_without_any_other_entry")
     if label.startswith("pad-"):
         ctx.count("corner_secrets_ending_in_their_pad_octet", 8)
-    sweep = not label.startswith("pad-") and ((not ctx.quick) or number % 10 == ctx.seed % 10)
+    if label.startswith("senders-ws"):
+        ctx.count("corner_sender_whitespace_variants")
+    sweep = not label.startswith("pad-") and ((not ctx.quick) or (number % 16 == ctx.seed % 16 and not label.startswith("senders-ws")))
     run_case(ctx, env, "corner", label, root, style, project, rng, sweep=sweep)
 
 
@@ -815,7 +818,7 @@ def run(ctx):
     ctx.rule = ("one case = one keyring file (generated from a per-index seeded random project, or an ETS export) loaded untouched, with "
                 "wrong passwords and with every single mutation; distinct = (source, mutation kind, element, attribute, how, judged, outcome) "
                 "and (project shape, serialisation style)")
-    ctx.require("long_value_originals_loaded_attempts", "corner_secrets_ending_in_their_pad_octet", "corner_keyrings", "corner_backbone_key_without_any_other_entry", "valid_files_loaded", "secrets_decrypted", "keys_decrypted", "sender_lists_compared", "wrong_password_rejected",
+    ctx.require("corner_sender_whitespace_variants", "long_value_originals_loaded_attempts", "corner_secrets_ending_in_their_pad_octet", "corner_keyrings", "corner_backbone_key_without_any_other_entry", "valid_files_loaded", "secrets_decrypted", "keys_decrypted", "sender_lists_compared", "wrong_password_rejected",
                 "tamper_mutations", "tamper_element-name", "tamper_attr-name", "tamper_attr-value", "tamper_swap-siblings",
                 "tamper_delete-element", "tamper_insert-element", "tamper_move-attr", "tamper_rejected_InvalidSecureConfiguration")
     files = ets_files()
